@@ -74,13 +74,18 @@ def build(regen=True, timeout=1500) -> BuildResult:
     lock = _lock()
     try:
         rg = regen_all() if regen else {}
-        for k, (rc, msg) in rg.items():
-            if rc != 0:
-                return BuildResult(False, f"translator {k} failed:\n{msg}", failing_file=k, failing_item=f"translator:{k}", regen=rg)
+        tfail = {k: msg for k, (rc, msg) in rg.items() if rc != 0}
         if not (COQ / "Makefile").exists() or (COQ / "Makefile").stat().st_mtime < (COQ / "_CoqProject").stat().st_mtime:
             subprocess.run(["coq_makefile", "-f", "_CoqProject", "-o", "Makefile"], cwd=COQ, capture_output=True, text=True, check=True)
         r = subprocess.run(["timeout", str(timeout), "make", "-k", "-j16"], cwd=COQ, capture_output=True, text=True)
         log = r.stdout + r.stderr
+        if tfail:
+            # a translator that fails leaves a STALE gen file behind: fail closed for every property whose cone contains it
+            k = sorted(tfail)[0]
+            gen = "gen/Gen" + k[len("gen_"):-len(".py")].capitalize() + ".v"
+            br = BuildResult(False, f"translator {k} failed:\n{tfail[k]}\n" + log[-3000:], failing_file=gen, failing_item=f"translator:{k}", regen=rg)
+            br.translator_failures = {"gen/Gen" + t[len("gen_"):-len(".py")].capitalize() + ".v": m for t, m in tfail.items()}
+            return br
         if r.returncode == 0:
             return BuildResult(True, log, regen=rg)
         m = re.search(r'File "\./([^"]+)", line (\d+)', log)
@@ -145,7 +150,14 @@ def stage_a(pid: str):
            "checker_cmd": f"cd /verif/coq && make -j16 (coqc 8.16.1, full .vo build of {len(deps)} files in the cone of props/{pid}.v after regenerating coq/gen/*.v from /repo) && coqc -R . OPC props/{pid}.v",
            "deps": deps, "wall_s": 0.0}
     if not b.ok:
-        in_cone = b.failing_file in deps if b.failing_file else True
+        tf = getattr(b, "translator_failures", None)
+        if tf:
+            hit = [g for g in tf if g in deps]
+            in_cone = bool(hit)
+            if hit:
+                b.failing_file, b.failing_item = hit[0], "translator-failed (stale regenerated facts)"
+        else:
+            in_cone = b.failing_file in deps if b.failing_file else True
         res["log"] = b.log
         if in_cone:
             res["failing"] = f"{b.failing_file}:{b.failing_item}" if b.failing_file else "build"
